@@ -97,6 +97,34 @@ def known_findings():
     return out
 
 
+def source_fingerprints(prop):
+    """{relative path: sha1 of the docstring-free AST} for the source files a property is anchored in
+    (properties.jsonl anchors.files, globs expanded) in the tree under test."""
+    import ast, glob as _glob
+    out = {}
+    for line in open(os.path.join(VERIF, "properties.jsonl")):
+        p = json.loads(line)
+        if p["id"] != prop:
+            continue
+        for pat in p["anchors"]["files"]:
+            for path in sorted(_glob.glob(os.path.join(REPO, pat))):
+                rel = os.path.relpath(path, REPO)
+                if not path.endswith(".py"):
+                    out[rel] = hashlib.sha1(open(path, "rb").read()).hexdigest()
+                    continue
+                try:
+                    tree = ast.parse(open(path).read())
+                    for node in ast.walk(tree):
+                        body = getattr(node, "body", None)
+                        if isinstance(body, list) and body and isinstance(body[0], ast.Expr) and isinstance(
+                                getattr(body[0], "value", None), ast.Constant) and isinstance(body[0].value.value, str):
+                            body[0] = ast.Pass()
+                    out[rel] = hashlib.sha1(ast.dump(tree).encode()).hexdigest()
+                except SyntaxError:
+                    out[rel] = "syntax-error"
+    return out
+
+
 def cone_files(prop_file):
     """Transitive closure of `From VC2 Require Import|Export A.B` starting at a .v file."""
     seen, todo = [], [prop_file]
@@ -165,6 +193,7 @@ class Ctx(object):
         self.corr_cases = 0
         self.corr_mismatches = 0
         self.exhaustive = False
+        self.escalated = False
         self.extra = {}
         self.workdir = os.path.join(BUILD, "corr", prop)
         os.makedirs(self.workdir, exist_ok=True)
@@ -174,7 +203,15 @@ class Ctx(object):
         return self.tier == "quick"
 
     def pick(self, quick, thorough):
-        return quick if self.tier == "quick" else thorough
+        """Size of a generator: the quick or thorough value.  When the sources a property is anchored in
+        differ from the pinned ones (self.escalated, see driver.source_changed) a quick run spends three
+        times the usual effort (never more than the thorough value): the moment the code has changed is
+        the moment the differential run is worth more."""
+        if self.tier != "quick":
+            return thorough
+        if self.escalated and isinstance(quick, int) and isinstance(thorough, int) and not isinstance(quick, bool):
+            return max(quick, min(thorough, 3 * quick))
+        return quick
 
     # ---- bookkeeping -------------------------------------------------------
     def obligation(self, name, ok, kind="lemma", detail=""):
